@@ -19,13 +19,14 @@ MCLoadable == [d \in {"d1", "d2", "d3"} |-> CASE d = "d1" -> <<"d1/a", "d1/b">> 
 MCIgnored == [d \in {"d1", "d2", "d3"} |-> IF d = "d1" THEN {"d1/.hidden", "d1/sub"} ELSE {}]
 NoDep == [name |-> "", body |-> None]
 MCDefaults ==
-  CASE Variant = "plain"   -> << [name |-> "n", body |-> RolesB({"dflt"}), dep |-> NoDep] >>
-    [] Variant = "renamed" -> << [name |-> "n", body |-> RolesB({"dflt"}), dep |-> [name |-> "o", body |-> RolesB({"old"})]] >>
-    [] Variant = "renamed_same" -> << [name |-> "n", body |-> RolesB({"dflt"}), dep |-> [name |-> "o", body |-> RolesB({"dflt"})]] >>
-    [] Variant = "same_same" -> << [name |-> "n", body |-> RolesB({"dflt"}), dep |-> [name |-> "n", body |-> RolesB({"dflt"})]] >>
-    [] Variant = "same"    -> << [name |-> "n", body |-> RolesB({"dflt"}), dep |-> [name |-> "n", body |-> RolesB({"old"})]] >>
-    [] Variant = "split"   -> << [name |-> "n", body |-> RolesB({"dflt"}), dep |-> [name |-> "o", body |-> RolesB({"old"})]],
-                                 [name |-> "n2", body |-> RolesB({"old"}), dep |-> [name |-> "o", body |-> RolesB({"old"})]] >>
+  CASE Variant = "plain"   -> << [name |-> "n", body |-> RolesB({"dflt"}), dep |-> NoDep, removal |-> 0] >>
+    [] Variant = "renamed" -> << [name |-> "n", body |-> RolesB({"dflt"}), dep |-> [name |-> "o", body |-> RolesB({"old"})], removal |-> 0] >>
+    [] Variant = "renamed_same" -> << [name |-> "n", body |-> RolesB({"dflt"}), dep |-> [name |-> "o", body |-> RolesB({"dflt"})], removal |-> 0] >>
+    [] Variant = "same_same" -> << [name |-> "n", body |-> RolesB({"dflt"}), dep |-> [name |-> "n", body |-> RolesB({"dflt"})], removal |-> 0] >>
+    [] Variant = "removal" -> << [name |-> "n", body |-> RolesB({"dflt"}), dep |-> NoDep, removal |-> 1] >>
+    [] Variant = "same"    -> << [name |-> "n", body |-> RolesB({"dflt"}), dep |-> [name |-> "n", body |-> RolesB({"old"})], removal |-> 0] >>
+    [] Variant = "split"   -> << [name |-> "n", body |-> RolesB({"dflt"}), dep |-> [name |-> "o", body |-> RolesB({"old"})], removal |-> 0],
+                                 [name |-> "n2", body |-> RolesB({"old"}), dep |-> [name |-> "o", body |-> RolesB({"old"})], removal |-> 0] >>
 
 Absent == [exists |-> FALSE, mtime |-> 0, content |-> NoRules]
 
